@@ -98,7 +98,16 @@ def check_text(text, depth, case, real=None):
     else:
         name = real
     try:
-        got = SequenceFileParser().parseSeqFile(name, silent=True)
+        # the three ways of passing the documented `silent` flag (keyword, positional, default) - chosen by the text, all equivalent
+        import zlib as _z
+        style = _z.crc32(text.encode("utf-8", "surrogatepass")) % 3
+        if style == 0:
+            got = SequenceFileParser().parseSeqFile(name, silent=True)
+        elif style == 1:
+            got = SequenceFileParser().parseSeqFile(name, True)
+        else:
+            with core.quiet():
+                got = SequenceFileParser().parseSeqFile(name)
         ok = True
     except Exception as e:  # noqa
         got, ok, err = None, False, e
@@ -305,6 +314,23 @@ def shard(s):
                                     acc.viol(x["key"], x["what"], x["case"])
         finally:
             shutil.rmtree(d, True)
+    elif kind == "bigtext":
+        # files whose TEXT exceeds 64 KiB / 128 KiB although the sequence is short (the parser is quadratic in the residues, not in
+        # the text): a very long description line, records padded with blanks to 200 columns, thousands of blank lines, CRLF
+        base = "MKVLAAGIDESTYPWFRNQHC"
+        seq = (base * 200)[:3000]
+        recs = [seq[i:i + 10] for i in range(0, len(seq), 10)]
+        for size in s[1]:
+            pad = size // len(recs) + 1
+            texts = [">" + "d" * size + "\n" + seq[:300] + "\n",
+                     ">h\n" + "\n".join(r + " " * pad for r in recs) + "\n",
+                     ">h\n" + ("\n" * (size // len(recs) + 1)).join(recs) + "\n",
+                     ">h\r\n" + "\r\n".join(r + "\t" * pad for r in recs) + "*\r\n",
+                     "\n".join(" " * pad + r for r in recs) + "\n" + "b" + "\n"]
+            for text in texts:
+                verdict = consume(text, 1, {"kind": "text", "depth": 1, "bigtext": size})
+                if verdict == ACCEPT:
+                    acc.nontrivial += 1
     elif kind == "longfiles":
         import random as _r
         base = "MKVLAAGIDESTYPWFRNQHC"
@@ -319,13 +345,16 @@ def shard(s):
                     lines.append(chunk)
                 for tail in ("\n", "*\n", "\n>second\nAK\n", "\nAKb\n"):
                     text = ">long one\n" + "\n".join(lines) + tail
-                    dep = 1 if (ll == 60 and not numbered and tail == "\n") else 0
+                    dep = 1 if (ll == 60 and not numbered and tail == "\n" and n <= 40000) else 0
                     verdict = consume(text, dep, {"kind": "text", "depth": dep, "long": n, "ll": ll, "numbered": numbered})
                     if verdict == ACCEPT:
                         acc.nontrivial += 1
     elif kind == "real":
         d = tempfile.mkdtemp(prefix="vmc_c14_")
         try:
+            for text in s[1]:
+                if "\r" in text:
+                    consume(text, 2, {"kind": "text", "depth": 2})      # the same text through the in-memory open() as well
             for i, text in enumerate(s[1]):
                 p = os.path.join(d, "f%d.txt" % i)
                 with open(p, "w", newline="") as f:
@@ -358,11 +387,14 @@ def run(tier, seed, t0):
         shards += [("layouts", seq, lo, lo + step) for lo in range(0, n, step)]
         shards += [("corrupt", seq, w) for w in (range(0, 3) if tier == "quick" else range(0, 12))]
     real = ["AKE\n", ">h\nAK E\n12 KA*\n", "AK\n>h\n>h2\nA", "A*K\n", ">only header\n", "ak\n", "MKE\r\nDST\r\n", "A\tK\n",
-            SEQ23 + "\n", ">x\n" + SEQ61[:30] + "\n" + SEQ61[30:] + "*\n"]
+            SEQ23 + "\n", ">x\n" + SEQ61[:30] + "\n" + SEQ61[30:] + "*\n",
+            # the three line-ending conventions of text files: LF, CRLF, bare CR - and mixtures
+            "MKE\rDST\r", ">h one\rAKE\rDST\r", ">h\nAK\rE\n", ">h\r\nAKE\rDST\n\rWW*\r", "AKE\r\rDST", ">h\r>h2\rAKE\r", "AK\rb\r"]
     shards.append(("real", real))
     shards.append(("bytes",))
     shards.append(("alphabets",))
-    for n_ in ((11000,) if tier == "quick" else (9000, 12000, 20000, 35000)):
+    shards.append(("bigtext", (70000, 140000) if tier == "quick" else (66000, 70000, 140000, 300000, 1100000)))
+    for n_ in ((11000,) if tier == "quick" else (9000, 12000, 20000, 35000, 70000)):
         shards.insert(0, ("longfiles", (n_,)))
     acc = core.pmap(shard, shards)
     return core.finish(
@@ -370,7 +402,7 @@ def run(tier, seed, t0):
         rule="every file text of length 0..%d over %d symbols %r served through an in-memory open(), every structured layout "
              "(header x every line length x 10-residue spacing x numbering x blank lines x trailing newline x stop) of %s, every "
              "single-character substitution by %d characters and 6 insertions at every position of sampled-by-index layouts, and "
-             "%d real temporary files; 30-residue files over every single residue, every pair of residues and nucleotide-/numeral-like sub-alphabets (parser and constructor route); 13 byte strings that are not text in the read encoding (lone continuation / lead bytes, Latin-1 letters, surrogate, overlong) inserted and substituted at every position of the sequence lines of 4 host files (in-memory open honouring the encoding/errors arguments the library passes, and real binary files) must be rejected; reference parser (vmc/refmodel/parser.py) gives must-accept(seq) / must-reject / dont-care; "
+             "%d real temporary files; files of 11000 residues (thorough: to 70000) in four layouts with four endings; files whose text exceeds 64/128 KiB (thorough: 1 MiB) around a 3000-residue sequence (long description line, blank-padded records, thousands of blank lines, CRLF); the silent flag passed by keyword, positionally or left at its default; 30-residue files over every single residue, every pair of residues and nucleotide-/numeral-like sub-alphabets (parser and constructor route); 13 byte strings that are not text in the read encoding (lone continuation / lead bytes, Latin-1 letters, surrogate, overlong) inserted and substituted at every position of the sequence lines of 4 host files (in-memory open honouring the encoding/errors arguments the library passes, and real binary files) must be rejected; reference parser (vmc/refmodel/parser.py) gives must-accept(seq) / must-reject / dont-care; "
              "accepted files up to length %d are also loaded with SequenceParameters(sequenceFile=...) and compared (sequence, and "
              "a 32-entry API vector up to length %d) with SequenceParameters(seq); non-trivial = accepted files that needed "
              "parsing (line breaks, spaces, digits, stop, header)" % (
